@@ -623,7 +623,11 @@ def writable_array(obj, **kwargs):
         yield arr
     finally:
         if arr is not None:
-            obj[:] = arr
+            if getattr(obj, 'ndim', None) == 0:
+                # 0-dimensional arrays and tensors cannot be sliced
+                obj[()] = arr
+            else:
+                obj[:] = arr
 
 
 def signature_string(posargs, optargs, sep=', ', mod='!r'):
